@@ -195,6 +195,9 @@ Proof.
     destruct (IH r s RO') as [A B]. split; [exact A|eapply sbr_trans; eauto].
 Qed.
 
+(* the 200-step draw loops are used through their specifications only *)
+Global Opaque draw_check draw_check_p.
+
 (* ------------------------------------------------------------------ taking a fresh uid *)
 Lemma inv_bump_uid : forall st, inv st -> inv (set_next_uid (next_uid st + 1) st).
 Proof.
@@ -651,7 +654,8 @@ Proof.
   unfold fresh_uid. set (n := next_uid s1). set (s2 := set_next_uid (n + 1) s1).
   assert (I2 : inv s2) by (apply inv_bump_uid; exact I1).
   assert (RO2 : rand_ok s2) by (destruct I2 as (_ & _ & _ & _ & _ & _ & _ & X & _); exact X).
-  destruct (draw_check_spec 200 0 s2 RO2 (or_introl ltac:(discriminate))) as (C0 & RO3 & SB3).
+  assert (NZ : (200 <> 0)%nat) by discriminate.
+  destruct (draw_check_spec 200 0 s2 RO2 (or_introl NZ)) as (C0 & RO3 & SB3).
   destruct (draw_check 200 0 s2) as [c s3]. cbn [fst snd] in *.
   assert (I3 : inv s3) by (eapply inv_sbr; eauto).
   set (s4 := emit (EvAdd 1 n p) s3).
@@ -814,7 +818,7 @@ Proof.
   split.
   - intros j e' N. rewrite nth_upd_nth in N. destruct (Nat.eqb i j) eqn:E.
     + apply Nat.eqb_eq in E; subst. destruct (nth_error (polls st) j) as [e|] eqn:N0; [|discriminate]. cbn in N. inversion N; subst.
-      exists e. split; [reflexivity|]. destruct (G e N0) as (A & B & C & _). auto.
+      exists e. split; [reflexivity|]. destruct (G e eq_refl) as (A & B & C & _). auto.
     + exists e'. split; [exact N|]. split; [eauto|]. split; [auto|]. eauto.
   - intros j e N S Hin. rewrite nth_upd_nth, N. destruct (Nat.eqb i j) eqn:E; cbn.
     + apply Nat.eqb_eq in E; subst. exists (g e). split; [reflexivity|]. destruct (G e N) as (_ & _ & _ & [Z|Z]); [|auto].
@@ -886,7 +890,7 @@ Qed.
 
 (* the kernel's interest list is not read by the invariant *)
 Lemma opframe_same_core : forall st st', same_core st st' -> stop st' = stop st -> opframe st st'.
-Proof. intros st st' [] S. apply opframe_same; auto. exists []. now rewrite sc_out0. Qed.
+Proof. intros st st' [L T P S' U O R F RA RN] S. apply opframe_same; auto. exists []. now rewrite O. Qed.
 Lemma k_add_same : forall a b c st, same_core st (snd (k_add a b c st)) /\ stop (snd (k_add a b c st)) = stop st.
 Proof. intros. unfold k_add. destruct (kfind _ _); cbn; split; try reflexivity; constructor; reflexivity. Qed.
 Lemma k_mod_same : forall a b c st, same_core st (snd (k_mod a b c st)) /\ stop (snd (k_mod a b c st)) = stop st.
@@ -940,7 +944,7 @@ Proof.
     match goal with |- context [upd_nth i ?f _] => set (f0 := f) end.
     set (enew := f0 e0).
     assert (EQ : upd_nth i f0 (polls s5) = upd_nth i (fun _ => enew) (polls s5)).
-    { clear. unfold enew, f0. generalize (polls s5). intros l. revert i. induction l; destruct i; cbn; auto. f_equal. auto. }
+    { clear. unfold enew, f0. generalize (polls s5). intros l. revert i. induction l; destruct i; cbn; auto; f_equal; auto. }
     rewrite EQ. split.
     + apply (inv_poll_activate i enew e0 s5 I5).
       * change (polls s5) with (polls s4). rewrite P4. exact N0.
@@ -1000,4 +1004,222 @@ Proof.
   destruct (L _ H) as (j & eo & en & N1 & N2 & L1 & L2 & U).
   assert (j = i) by (destruct I as (_ & _ & (_ & P2 & _) & _); apply (P2 j i eo e N1 N L1 LE U)).
   subst j. rewrite nth_upd_nth, Nat.eqb_refl, N in N2. cbn in N2. inversion N2; subst. exact (NL L2).
+Qed.
+
+Lemma mark_deleted_ptrans : forall i st, inv st -> occ_all (QFd i) st = 0 -> ptrans st (upd_nth i mark_deleted (polls st)).
+Proof.
+  intros i st I Z. apply ptrans_upd; [exact I|]. intros e N. cbn.
+  destruct I as (_ & _ & (X & _) & _). split; [eauto|]. split; [intros [Y|Y]; discriminate Y|]. split; [discriminate|]. left. exact Z.
+Qed.
+Lemma qfd_absent_if_active : forall i e st, inv st -> nth_error (polls st) i = Some e -> p_state e <> Joblist -> occ_all (QFd i) st = 0.
+Proof.
+  intros i e st I N S. pose proof (occ_all_nonneg (QFd i) st). destruct (Z.eq_dec (occ_all (QFd i) st) 0) as [|NZ]; [auto|].
+  destruct (occ_all_in (QFd i) st ltac:(lia)) as (it & A & B). destruct it; cbn in B; try discriminate.
+  apply Nat.eqb_eq in B; subst. destruct I as (_ & _ & _ & _ & (_ & _ & Q3 & _) & _). destruct (Q3 _ A) as (e' & A' & B').
+  rewrite N in A'. inversion A'; subst. congruence.
+Qed.
+
+Lemma poll_del_ok : forall fd st, inv st -> inv (snd (poll_del fd st)) /\ opframe st (snd (poll_del fd st)).
+Proof.
+  intros fd st I. unfold poll_del.
+  destruct (find_idx _ (polls st)) as [i|]; [|split; [exact I|apply opframe_refl]].
+  destruct (nth_error (polls st) i) as [e|] eqn:N; [|split; [exact I|apply opframe_refl]].
+  assert (Common : forall s1, shrinks st s1 -> occ_all (QFd i) s1 = 0 -> plive e ->
+     inv (snd (let '(res, s) := k_del fd (emit (EvDel 2 (p_uid e)) s1) in (res, set_polls (upd_nth i mark_deleted (polls s)) s))) /\
+     opframe st (snd (let '(res, s) := k_del fd (emit (EvDel 2 (p_uid e)) s1) in (res, set_polls (upd_nth i mark_deleted (polls s)) s)))).
+  { intros s1 SH Z LE.
+    assert (I1 : inv s1) by (eapply inv_shrinks; eauto).
+    assert (P1 : polls s1 = polls st) by (apply (sh_polls _ _ SH)).
+    assert (N1 : nth_error (polls s1) i = Some e) by (rewrite P1; exact N).
+    pose proof (mark_deleted_ptrans i s1 I1 Z) as TR.
+    destruct (inv_ptrans _ _ I1 TR) as [I2 _].
+    set (s2 := set_polls (upd_nth i mark_deleted (polls s1)) s1).
+    assert (NLv : ~ live s2 2 (p_uid e)).
+    { apply (fd_not_live_after i mark_deleted s1 e I1 TR N1 LE). cbn. intros [X|X]; discriminate X. }
+    assert (I3 : inv (emit (EvDel 2 (p_uid e)) s2)).
+    { apply inv_emit_del; [exact I2| |exact NLv]. cbn. rewrite (sh_uid _ _ SH). destruct I as (_ & _ & (X & _) & _). eauto. }
+    assert (EQ : snd (let '(res, s) := k_del fd (emit (EvDel 2 (p_uid e)) s1) in (res, set_polls (upd_nth i mark_deleted (polls s)) s))
+                 = snd (k_del fd (emit (EvDel 2 (p_uid e)) s2))).
+    { unfold k_del. cbn [kset emit set_out]. change (kset s2) with (kset s1). destruct (kfind fd (kset s1)); reflexivity. }
+    rewrite EQ. destruct (k_del_same fd (emit (EvDel 2 (p_uid e)) s2)) as [SC ST].
+    split; [eapply inv_same_core; eauto|].
+    apply (opframe_trans st s1); [apply opframe_shrinks; exact SH|].
+    apply (opframe_trans s1 s2).
+    - apply opframe_set_polls. intros j u H. apply pparked_upd; [|exact H]. intros e' _ _. cbn. auto.
+    - apply (opframe_trans s2 (emit (EvDel 2 (p_uid e)) s2)); [apply opframe_emit|apply opframe_same_core; auto]. }
+  assert (SHR : shrinks st st) by (constructor; auto; intros; lia).
+  destruct (p_state e) eqn:S; cbn [snd].
+  - split; [exact I|apply opframe_refl].
+  - (* JOBLIST *) apply (Common (item_del (p_p e) (QFd i) st)); [apply shrinks_item_del| |right; exact S].
+    apply item_del_clears; [|reflexivity]. destruct I as (_ & _ & _ & _ & X & _). exact X.
+  - split; [exact I|apply opframe_refl].
+  - (* ACTIVE *) apply (Common st SHR); [|left; exact S]. apply (qfd_absent_if_active i e st I N). congruence.
+Qed.
+
+(* ------------------------------------------------------------------ signals *)
+Lemma inv_set_sigs : forall ss st, inv st ->
+  inv_s ss (next_uid st) ->
+  (forall u f g k, In (QSig u f g k) (all_items st) -> exists s, In s ss /\ s_id s = f) ->
+  (forall a, (exists s, In s ss /\ s_id s = a) -> live_sig st a \/ ~ gone (out st) 3 a) ->
+  inv (set_sigs ss st).
+Proof.
+  intros ss st (I0 & IT & IP & IS & IQ & IG & IR & IRA & IF) NS NQ NL. unfold inv.
+  change (next_uid (set_sigs ss st)) with (next_uid st). change (timers (set_sigs ss st)) with (timers st).
+  change (polls (set_sigs ss st)) with (polls st). change (regs (set_sigs ss st)) with (regs st).
+  change (fx (set_sigs ss st)) with (fx st). change (sigs (set_sigs ss st)) with ss.
+  split; [exact I0|]. split; [exact IT|]. split; [exact IP|]. split; [exact NS|].
+  split; [|split; [|split; [exact IR|split; [exact IRA|exact IF]]]].
+  - destruct IQ as (Q1 & Q2 & Q3 & Q4 & Q5 & Q6 & Q7). unfold inv_q.
+    split; [exact Q1|]. split; [exact Q2|]. split; [exact Q3|]. split; [exact NQ|]. split; [exact Q5|]. split; [exact Q6|exact Q7].
+  - destruct IG as (G1 & G2 & G3). split; [exact G1|]. split; [|exact G3].
+    intros k a Hg [[K L]|[[K L]|[[K L]|[K L]]]].
+    + apply (G2 k a Hg). left. auto.
+    + apply (G2 k a Hg). right; left. auto.
+    + apply (G2 k a Hg). right; right; left. auto.
+    + destruct (NL a L) as [H|H]; [apply (G2 k a Hg); right; right; right; auto|subst k; exact (H Hg)].
+Qed.
+Lemma opframe_set_sigs : forall ss st, opframe st (set_sigs ss st).
+Proof. intros. apply opframe_same; try reflexivity. exists []. reflexivity. Qed.
+
+Lemma NoDup_app_one : forall A (l : list A) x, NoDup l -> ~ In x l -> NoDup (l ++ [x]).
+Proof.
+  induction l; cbn; intros x H N; [constructor; [tauto|constructor]|].
+  inversion H; subst. constructor.
+  - intros X. apply in_app_or in X. destruct X as [X|[X|[]]]; [tauto|]. subst. tauto.
+  - apply IHl; tauto.
+Qed.
+Lemma signal_add_ok : forall p g k r st, inv st -> inv (snd (signal_add p g k r st)) /\ opframe st (snd (signal_add p g k r st)).
+Proof.
+  intros p g k r st I. unfold signal_add, fresh_uid. cbn [snd].
+  set (n := next_uid st). set (s1 := set_next_uid (n + 1) st).
+  assert (I1 : inv s1) by (apply inv_bump_uid; exact I).
+  set (s2 := emit (EvAdd 3 n p) s1).
+  assert (I2 : inv s2) by (apply inv_emit_neutral; [exact Logic.I|exact I1]).
+  set (s3 := set_sigs (sigs s2 ++ [Build_sigreg n g p k]) s2).
+  assert (I3 : inv s3).
+  { pose proof I as (_ & _ & _ & (S1 & S2) & (_ & _ & _ & Q4 & _) & _).
+    apply inv_set_sigs; [exact I2| | |].
+    - split.
+      + change (sigs s2) with (sigs st). rewrite map_app. cbn. apply NoDup_app_one; [exact S1|].
+        intros H. apply in_map_iff in H. destruct H as (s & A & B). specialize (S2 s B). unfold n in *. lia.
+      + intros s H. change (sigs s2) with (sigs st) in H. apply in_app_or in H. destruct H as [H|[<-|[]]]; cbn.
+        * specialize (S2 s H). unfold n in *. lia.
+        * lia.
+    - intros u f g' k' H. destruct (Q4 u f g' k' H) as (s & A & B). exists s. split; [apply in_or_app; left; exact A|exact B].
+    - intros a (s & A & B). change (sigs s2) with (sigs st) in A. apply in_app_or in A. destruct A as [A|[<-|[]]].
+      + left. exists s. auto.
+      + right. cbn in B. subst a. cbn [out s2 emit set_out]. intros Hg. apply (gone_neutral (EvAdd 3 n p)) in Hg; [|exact Logic.I].
+        exact (fresh_not_gone st 3 I Hg). }
+  split.
+  - eapply inv_same_core; [|exact I3]. constructor; reflexivity.
+  - apply (opframe_trans st s1); [apply opframe_bump_uid|]. apply (opframe_trans s1 s2); [apply opframe_emit|].
+    apply (opframe_trans s2 s3); [apply opframe_set_sigs|]. apply opframe_same; try reflexivity. exists []. reflexivity.
+Qed.
+
+Lemma flag_uaf_ok : forall w st, inv st -> inv (flag_uaf w st) /\ opframe st (flag_uaf w st).
+Proof.
+  intros w st I. unfold flag_uaf. split.
+  - apply inv_emit_neutral; [exact Logic.I|]. eapply inv_same_core; [|exact I]. constructor; reflexivity.
+  - apply opframe_same; try reflexivity. exists [EvUaf w]. reflexivity.
+Qed.
+
+Lemma sig_find_spec : forall h st s, sig_find h st = Some s -> In s (sigs st) /\ s_id s = h.
+Proof. intros h st s H. unfold sig_find in H. apply find_some in H. destruct H as [A B]. apply Z.eqb_eq in B. auto. Qed.
+
+Lemma signal_mod_ok : forall p g k h st, inv st -> inv (snd (signal_mod p g k h st)) /\ opframe st (snd (signal_mod p g k h st)).
+Proof.
+  intros p g k h st I. unfold signal_mod. destruct (h =? 0); [split; [exact I|apply opframe_refl]|].
+  destruct (sig_find h st) as [s|] eqn:F; cbn [snd]; [|apply flag_uaf_ok; exact I].
+  split; [|apply opframe_set_sigs].
+  pose proof I as (_ & _ & _ & (S1 & S2) & (_ & _ & _ & Q4 & _) & _).
+  assert (M : map s_id (map (fun s0 => if s_id s0 =? h then Build_sigreg h g p k else s0) (sigs st)) = map s_id (sigs st)).
+  { rewrite map_map. apply map_ext. intros a. destruct (s_id a =? h) eqn:E; [apply Z.eqb_eq in E; cbn; auto|reflexivity]. }
+  assert (IDS : forall a, (exists s0, In s0 (map (fun s0 => if s_id s0 =? h then Build_sigreg h g p k else s0) (sigs st)) /\ s_id s0 = a)
+                          <-> live_sig st a).
+  { intros a. unfold live_sig. split.
+    - intros (s0 & A & B). assert (In a (map s_id (sigs st))) by (rewrite <- M; apply in_map_iff; eauto).
+      apply in_map_iff in H. destruct H as (s1 & C & D). eauto.
+    - intros (s0 & A & B). assert (In a (map s_id (sigs st))) by (apply in_map_iff; eauto).
+      rewrite <- M in H. apply in_map_iff in H. destruct H as (s1 & C & D). eauto. }
+  apply inv_set_sigs; [exact I| | |].
+  - split; [rewrite M; exact S1|]. intros s0 H. assert (In (s_id s0) (map s_id (sigs st))) by (rewrite <- M; apply in_map; exact H).
+    apply in_map_iff in H0. destruct H0 as (s1 & C & D). rewrite <- C. auto.
+  - intros u f g' k' H. apply IDS. eauto.
+  - intros a H. left. apply IDS. exact H.
+Qed.
+
+(* the repaired qb_loop_signal_del *)
+Lemma jobq_purge : forall h p st q,
+  jobq (lv (purge_clones h p st) q) = (if prio_eqb q p then filter (fun it => negb (is_clone_of h it)) (jobq (lv st q)) else jobq (lv st q)) /\
+  wait (lv (purge_clones h p st) q) = wait (lv st q).
+Proof.
+  intros. unfold purge_clones, upd_level, set_lv. cbn. destruct (prio_eqb q p) eqn:E; [|auto].
+  apply prio_eqb_eq in E; subst. cbn. auto.
+Qed.
+Definition purge_all (h : Z) (st : state) : state := purge_clones h High (purge_clones h Med (purge_clones h Low st)).
+Lemma purge_all_lists : forall h st q,
+  jobq (lv (purge_all h st) q) = filter (fun it => negb (is_clone_of h it)) (jobq (lv st q)) /\
+  wait (lv (purge_all h st) q) = wait (lv st q).
+Proof.
+  intros. unfold purge_all.
+  destruct (jobq_purge h High (purge_clones h Med (purge_clones h Low st)) q) as [A1 B1].
+  destruct (jobq_purge h Med (purge_clones h Low st) q) as [A2 B2].
+  destruct (jobq_purge h Low st q) as [A3 B3].
+  rewrite A1, B1, A2, B2, A3, B3. destruct q; cbn; auto.
+Qed.
+Lemma shrinks_purge_all : forall h st, shrinks st (purge_all h st).
+Proof.
+  intros h st. constructor; try reflexivity.
+  - intros x. rewrite !occ_all_split.
+    destruct (purge_all_lists h st High) as [-> ->]. destruct (purge_all_lists h st Med) as [-> ->].
+    destruct (purge_all_lists h st Low) as [-> ->].
+    pose proof (occ_filter_le x (fun it => negb (is_clone_of h it)) (jobq (lv st High))).
+    pose proof (occ_filter_le x (fun it => negb (is_clone_of h it)) (jobq (lv st Med))).
+    pose proof (occ_filter_le x (fun it => negb (is_clone_of h it)) (jobq (lv st Low))). lia.
+  - intros it H. apply in_all_items in H. destruct H as (q & H). apply in_all_items. exists q.
+    destruct (purge_all_lists h st q) as [A B]. rewrite A, B in H. destruct H as [H|H]; [left|right; exact H].
+    apply filter_In in H. tauto.
+  - intros q it H. destruct (purge_all_lists h st q) as [_ B]. rewrite B in H. exact H.
+Qed.
+Lemma purge_all_clean : forall h st u g k, inv st -> ~ In (QSig u h g k) (all_items (purge_all h st)).
+Proof.
+  intros h st u g k I H. apply in_all_items in H. destruct H as (q & H).
+  destruct (purge_all_lists h st q) as [A B]. rewrite A, B in H. destruct H as [H|H].
+  - apply filter_In in H. destruct H as [_ H]. cbn in H. rewrite Z.eqb_refl in H. discriminate.
+  - destruct I as (_ & _ & _ & _ & (_ & _ & _ & _ & _ & _ & Q7) & _). destruct (Q7 q _ H) as (a & b & E). discriminate.
+Qed.
+
+Lemma NoDup_map_filter : forall A B (f : A -> B) g l, NoDup (map f l) -> NoDup (map f (filter g l)).
+Proof.
+  induction l; cbn; intros H; [constructor|]. inversion H; subst. destruct (g a); cbn; [|auto].
+  constructor; [|auto]. intros X. apply H2. apply in_map_iff in X. destruct X as (y & E & Y). apply filter_In in Y.
+  apply in_map_iff. exists y. tauto.
+Qed.
+
+Lemma signal_del_ok : forall h st, inv st -> inv (snd (signal_del h st)) /\ opframe st (snd (signal_del h st)).
+Proof.
+  intros h st I. unfold signal_del. destruct (h =? 0); [split; [exact I|apply opframe_refl]|].
+  destruct (sig_find h st) as [s|] eqn:F; cbn [snd]; [|apply flag_uaf_ok; exact I].
+  apply sig_find_spec in F. destruct F as [Hin Hid].
+  pose proof I as (_ & _ & _ & _ & _ & _ & _ & _ & IF). rewrite IF.
+  fold (purge_all h st). set (s1 := purge_all h st).
+  assert (SH : shrinks st s1) by apply shrinks_purge_all.
+  assert (I1 : inv s1) by (eapply inv_shrinks; eauto).
+  set (ss := filter (fun s0 => negb (s_id s0 =? h)) (sigs s1)).
+  change (set_sigs ss (emit (EvDel 3 h) s1)) with (emit (EvDel 3 h) (set_sigs ss s1)).
+  assert (I2 : inv (set_sigs ss s1)).
+  { pose proof I1 as (_ & _ & _ & (S1 & S2) & (_ & _ & _ & Q4 & _) & _).
+    apply inv_set_sigs; [exact I1| | |].
+    - split; [apply NoDup_map_filter; exact S1|]. intros s0 H. apply filter_In in H. destruct H as [H _]. auto.
+    - intros u f g k H. destruct (Q4 u f g k H) as (s0 & A & B). exists s0. split; [|exact B].
+      apply filter_In. split; [exact A|]. destruct (s_id s0 =? h) eqn:E; [|reflexivity]. apply Z.eqb_eq in E.
+      exfalso. subst f. rewrite E in H. exact (purge_all_clean h st u g k I H).
+    - intros a (s0 & A & B). left. apply filter_In in A. destruct A as [A _]. exists s0. auto. }
+  split.
+  - apply inv_emit_del; [exact I2| |].
+    + change (next_uid (set_sigs ss s1)) with (next_uid s1). rewrite (sh_uid _ _ SH). destruct I as (_ & _ & _ & (_ & S2) & _). rewrite <- Hid. auto.
+    + intros [[K _]|[[K _]|[[K _]|[_ (s0 & A & B)]]]]; try discriminate K. cbn in A. apply filter_In in A. destruct A as [_ A].
+      rewrite B, Z.eqb_refl in A. discriminate.
+  - apply (opframe_trans st s1); [apply opframe_shrinks; exact SH|].
+    apply (opframe_trans s1 (set_sigs ss s1)); [apply opframe_set_sigs|apply opframe_emit].
 Qed.
